@@ -78,6 +78,17 @@ pub fn judge(defs: &UnitDefs, o: &Obs) -> Result<bool, String> {
                 dim_string(&da)
             ));
         }
+        // overflow to infinity (operands near f64::MAX in a unit larger than the base unit) is not
+        // specified by the property: the numeric comparison is skipped, the order laws still apply
+        if !expect[k].is_finite() || !v.is_finite() || !scale.is_finite() {
+            continue;
+        }
+        // a subnormal operand or result carries fewer than 53 significant bits in whatever unit it
+        // is held, so the closeness of the sum is not specified either (order laws still apply)
+        let near_subnormal = |x: f64| x != 0.0 && x.abs() < f64::MIN_POSITIVE * 1e16;
+        if near_subnormal(o.raw[0].0) || near_subnormal(o.raw[1].0) || near_subnormal(o.raw[2 + k].0) {
+            continue;
+        }
         if !((v - expect[k]).abs() <= tol) {
             return Err(format!(
                 "{} = {v:e} in base units, dimensional arithmetic gives {:e}",
@@ -135,6 +146,12 @@ pub fn check(rep: &mut Report) {
                 for y in M8 {
                     v.push((x, y));
                 }
+            }
+            // the remaining floating-point classes, with themselves and with 1
+            for x in M_EXTREME {
+                v.push((x, x));
+                v.push((x, "1"));
+                v.push(("1", x));
             }
             v
         }
@@ -329,7 +346,7 @@ pub fn check(rep: &mut Report) {
     rep.set("unit_pairs", json!(pairs.len()));
     rep.set("magnitude_pairs", json!(mag_pairs.len()));
     rep.set("unit_triples", json!(triples.len()));
-    rep.rule = "every ordered pair of same-dimension prelude units x magnitude pairs (quick: diagonal + 7 cross pairs; thorough: M8xM8) + prefixed operands; a+b, b+a, a-b, -(b-a) evaluated by the interpreter, raw values read through the hook and displayed text through print; plus all 6 orders of three-operand sums over per-dimension unit subsets; non-trivial = cases where the display clause applies (unit sizes differ, not both zero) and all triples".into();
+    rep.rule = "every ordered pair of same-dimension prelude units x magnitude pairs (quick: diagonal + 7 cross pairs; thorough: M8xM8 + the extreme magnitudes 5e-324, 1e-310, f64::MAX, 2^53+1 with themselves and with 1) + prefixed operands; a+b, b+a, a-b, -(b-a) evaluated by the interpreter, raw values read through the hook and displayed text through print; plus all 6 orders of three-operand sums over per-dimension unit subsets; non-trivial = cases where the display clause applies (unit sizes differ, not both zero) and all triples".into();
     rep.assumptions = vec![
         "reference base factors come from UnitDefs (direct definitions, independent recursion)".into(),
         "physical equality tolerance 1e-9 relative to |a|+|b| in base units".into(),
